@@ -128,12 +128,24 @@ def where(e):
     return _where(e.__traceback__)
 
 
-_LIVE = {"ctx": None, "basis_mutated": False}
+_LIVE = {"ctx": None, "basis_mutated": False, "suspect": frozenset(), "incomplete_git": False}
+RENAMED_DIR_KEY = "export:tree-of-renamed-directory-not-generated"
 
 
-def classify(e, what):
+def missing_key(default, oid):
+    """A tree object the incremental export never produced: one mechanism when it is the tree of a directory that
+    was renamed in that revision (seen by serve / dpush / find_missing_objects alike), else the oracle's own key."""
+    return RENAMED_DIR_KEY if oid in _LIVE["suspect"] else default
+
+
+def classify(e, what, detail=None):
     """Mechanism key for an exception that escaped the operation under test."""
     tb = "".join(traceback.format_exception(type(e), e, e.__traceback__))
+    if isinstance(e, KeyError) and detail and detail.get("oid") in _LIVE["suspect"]:
+        return RENAMED_DIR_KEY
+    if "builder already open" in str(e) and _LIVE["incomplete_git"]:
+        # fetching back a git repository that lacks a tree: the importer falls back to the target's own object store
+        return RENAMED_DIR_KEY
     if isinstance(e, TypeError) and "import_git_blob" in tb and "not dict" in str(e):
         return "git-import:parent-lookup-gets-dict"
     if what.startswith("legacy-target:") and _LIVE["basis_mutated"]:
@@ -209,7 +221,9 @@ def attempt(ctx, what, fn, detail=None):
     except Exception as e:
         d = dict(detail or {})
         d["traceback"] = traceback.format_exc()[-2500:]
-        ctx.fail(classify(e, what), repr(e)[:400], d)
+        key = classify(e, what, d)
+        d.pop("oid", None)
+        ctx.fail(key, repr(e)[:400], d)
         return False, None
 
 
@@ -283,7 +297,7 @@ def oracle_a(ctx, rng, h, repo_path, revs):
                 if obj.id in seen:
                     continue
                 seen.add(obj.id)
-                ok, got = attempt(ctx, "serve", lambda: store[obj.id], {"revision": rid.decode(), "path": path, "type": obj.type_name.decode()})
+                ok, got = attempt(ctx, "serve", lambda: store[obj.id], {"revision": rid.decode(), "path": path, "type": obj.type_name.decode(), "oid": obj.id})
                 if not ok:
                     continue
                 ctx.count("a_object_served")
@@ -312,7 +326,7 @@ def oracle_a(ctx, rng, h, repo_path, revs):
                 ctx.count("a_missing_objects_complete")
                 ctx.hist("a:find_missing:" + ("with-have" if have else "no-have"))
                 lack = need - got
-                ctx.check(not lack, "find_missing_objects:object-not-sent",
+                ctx.check(not lack, RENAMED_DIR_KEY if lack and lack <= _LIVE["suspect"] else "find_missing_objects:object-not-sent",
                           "%d objects reachable from %s and absent from %s are not enumerated" % (len(lack), tip.decode(), have and have.decode()),
                           {"missing": sorted(x.decode() for x in lack)[:10]})
         idmap_warm = store._cache.idmap
@@ -615,7 +629,9 @@ def oracle_c(ctx, rng, h, revs):
             if s in checked:
                 continue
             checked.add(s)
-            if not ctx.check(s in g.object_store, "dpush:object-missing-in-git", "object %s reachable from %s (%s) was not pushed" % (s, sha, old.decode())):
+            if s not in g.object_store:
+                _LIVE["incomplete_git"] = True
+                ctx.fail(missing_key("dpush:object-missing-in-git", s), "object %s reachable from %s (%s) was not pushed" % (s, sha, old.decode()))
                 continue
             o = g[s]
             if o.type_name == b"tree":
@@ -655,6 +671,7 @@ def oracle_c(ctx, rng, h, revs):
 
 def case(ctx):
     from vf.checks import _c35_hist as H
+    from vf.observe import snap_tree, strip_ids
 
     from vf import gen
 
@@ -676,17 +693,31 @@ def case(ctx):
     revs = {}
     with repo.lock_read():
         for rid in h.order:
-            snap = snapshot(repo.revision_tree(rid))
+            full = snap_tree(repo.revision_tree(rid))
+            snap = strip_ids(full)
             root, objs = ref_objects(snap)
-            revs[rid] = {"snap": snap, "parents": list(h.recorded[rid]["parents"]), "root": root, "objs": objs}
+            revs[rid] = {"snap": snap, "parents": list(h.recorded[rid]["parents"]), "root": root, "objs": objs,
+                         "ids": {p: v[3] for p, v in full.items()}}
             for v in snap.values():
                 ctx.hist("entry:" + ("exec-file" if v[0] == "file" and v[2] else v[0]))
             if prune_empty(snap) != snap:
                 ctx.hist("tree:has-empty-directory")
+    suspect = set()
+    for rid in h.order:
+        r = revs[rid]
+        p0 = r["parents"][0] if r["parents"] and r["parents"][0] in revs else None
+        if p0 is None:
+            continue
+        old = {fid: p for p, fid in revs[p0]["ids"].items()}
+        for path, obj in r["objs"].items():
+            if path and obj.type_name == b"tree" and old.get(r["ids"].get(path), path) != path:
+                suspect.add(obj.id)
     cwd = os.getcwd()
     os.chdir(ctx.tmp("cwd"))
     _LIVE["ctx"] = ctx
     _LIVE["basis_mutated"] = False
+    _LIVE["suspect"] = frozenset(suspect)
+    _LIVE["incomplete_git"] = False
     try:
         oracle_a(ctx, rng, h, h.trees["b0"], revs)
         oracle_c(ctx, rng, h, revs)
